@@ -255,3 +255,92 @@ Qed.
 Print Assumptions source_quantile_is_search_on_cdf.
 Print Assumptions source_horizon_is_search_on_cdf.
 Print Assumptions source_horizon_sound.
+
+(* ------------------------------------------------------------------------------------------------------------------------------ *)
+(* The precision guarantee of the quantile search, for the comparisons of real numbers: when the iteration budget is not exhausted,  *)
+(* the distribution function at the returned time is within `precision` of q.                                                       *)
+From mathcomp Require Import zify.
+Section Precision.
+  Variable F : Q -> R.
+  Hypothesis F_mono : forall a b, (0 <= a)%QQ -> (a <= b)%QQ -> Rle (F a) (F b).
+  Let ltRQ (x : R) (q : Q) : bool := if Rlt_dec x (Q2R q) then true else false.
+  Let ltQR (q : Q) (x : R) : bool := if Rlt_dec (Q2R q) x then true else false.
+  Variables q prec : Q.
+
+  Definition bracket (a b : Q) : Prop := (0 <= a)%QQ /\ (a <= b)%QQ /\ Rlt (F a) (Q2R q) /\ Rle (Q2R q) (F b).
+
+  Lemma t_bisect_spec : forall fuel a b i a' b' i',
+    t_bisect F ltRQ ltQR Rminus fuel q prec a b i = (a', b', i') -> bracket a b ->
+    bracket a' b' /\ (i <= i')%coq_nat /\ ((i' < i + fuel)%coq_nat -> Rle (Rminus (F b') (F a')) (Q2R prec)).
+  Proof.
+  elim=> [|fuel IH] a b i a' b' i' /=.
+    move=> [<- <- <-] Hb; split; [exact: Hb | split; [exact: le_n | move=> H; exfalso; move: H; rewrite ?addn0 -?plus_n_O; exact: PeanoNat.Nat.lt_irrefl]].
+  rewrite /ltQR; case: (Rlt_dec (Q2R prec) (F b - F a)) => Hgap; last first.
+    move=> [<- <- <-] Hb; split; [exact: Hb | split; [exact: le_n | move=> _; exact: Rnot_lt_le]].
+  move=> E [Ha [Hab [Hlo Hhi]]].
+  have [Hm1 Hm2] := half_mid Hab.
+  have Hm0 : (0 <= (a + b) / inject_Z 2)%QQ by lra.
+  move: E; rewrite /ltRQ; case: (Rlt_dec (F ((a + b) / inject_Z 2)%QQ) (Q2R q)) => Hmid E.
+  - have Hbr : bracket ((a + b) / inject_Z 2)%QQ b by [].
+    have [H1 [H2 H3]] := IH _ _ _ _ _ _ E Hbr.
+    split=> //; split; first by move: H2; clear; lia.
+    by move=> H; apply: H3; move: H; clear; lia.
+  - have Hbr : bracket a ((a + b) / inject_Z 2)%QQ by split=> //; split=> //; split=> //; exact: Rnot_lt_le.
+    have [H1 [H2 H3]] := IH _ _ _ _ _ _ E Hbr.
+    split=> //; split; first by move: H2; clear; lia.
+    by move=> H; apply: H3; move: H; clear; lia.
+  Qed.
+
+  (* the value at the midpoint of a bracket whose gap is at most prec is within prec of q *)
+  Lemma bracket_midpoint a b : bracket a b -> Rle (Rminus (F b) (F a)) (Q2R prec) ->
+    Rle (Rabs (Rminus (F ((a + b) / inject_Z 2)%QQ) (Q2R q))) (Q2R prec).
+  Proof.
+  move=> [Ha [Hab [Hlo Hhi]]] Hgap.
+  have [Hm1 Hm2] := half_mid Hab.
+  have H1 := F_mono Ha Hm1.
+  have Hm0 : (0 <= (a + b) / inject_Z 2)%QQ by lra.
+  have H2 := F_mono Hm0 Hm2.
+  apply: Rabs_le; split; Lra.lra.
+  Qed.
+
+  (* the whole search: expansion from b = 1, then bisection from a = 0 *)
+  Theorem t_quantile_precision ef max_iter b1 i1 a2 b2 i2 :
+    t_expand F ltRQ (max_iter - 0) q ef (inject_Z 1) 0 = (b1, i1) ->
+    t_bisect F ltRQ ltQR Rminus (max_iter - i1) q prec (inject_Z 0) b1 i1 = (a2, b2, i2) ->
+    (0 <= b1)%QQ -> Rlt (F 0%QQ) (Q2R q) -> Rle (Q2R q) (F b1) -> (i1 <= max_iter)%coq_nat -> (i2 < max_iter)%coq_nat ->
+    t_quantile F ltRQ ltQR Rminus q ef prec max_iter = ((a2 + b2) / inject_Z 2)%QQ /\
+    Rle (Rabs (Rminus (F ((a2 + b2) / inject_Z 2)%QQ) (Q2R q))) (Q2R prec).
+  Proof.
+  move=> E1 E2 Hb1 H0 Hq Hi1 Hi2.
+  split; first by rewrite /t_quantile E1 E2.
+  have Hbr : bracket (inject_Z 0) b1 by [].
+  have [Hbr' [_ Hgap]] := t_bisect_spec E2 Hbr.
+  apply: (bracket_midpoint Hbr'); apply: Hgap.
+  move: Hi1 Hi2; rewrite /subn /subn_rec => Hi1 Hi2; lia.
+  Qed.
+End Precision.
+
+Print Assumptions t_quantile_precision.
+
+(* the C03 clause for the TRANSLATED SOURCE: with the comparisons of real numbers, whenever the expansion reached q and the iteration
+   budget was not exhausted, the source's own distribution function at the time that `quantile` returns is within `precision` of q *)
+Theorem source_quantile_within_precision (expm : seq (seq R) -> seq (seq R))
+  (expm_sound : forall n A, wf n n A -> wf n n (expm A) /\ mx_of n n (expm A) = mexp (mx_of n n A))
+  n Ss Slast alpha e q ef prec max_iter b1 i1 a2 b2 i2 :
+  all_wf n Ss -> wf n n Slast -> size e = n -> epochs_wf (seq (seq R)) 0%QQ Ss -> (1 <= ef)%QQ ->
+  let F := cdf_at expm Ss Slast alpha e in
+  let ltRQ := fun (x : R) (q : Q) => if Rlt_dec x (Q2R q) then true else false in
+  let ltQR := fun (q : Q) (x : R) => if Rlt_dec (Q2R q) x then true else false in
+  (forall a b, (0 <= a)%QQ -> (a <= b)%QQ -> Rle (F a) (F b)) ->
+  t_expand F ltRQ (max_iter - 0) q ef (inject_Z 1) 0 = (b1, i1) ->
+  t_bisect F ltRQ ltQR Rminus (max_iter - i1) q prec (inject_Z 0) b1 i1 = (a2, b2, i2) ->
+  (0 <= b1)%QQ -> Rlt (F 0%QQ) (Q2R q) -> Rle (Q2R q) (F b1) -> (i1 <= max_iter)%coq_nat -> (i2 < max_iter)%coq_nat ->
+  Rle (Rabs (Rminus (F (TreeHeightDistribution_quantile OpsR expm ltRQ ltQR n alpha e (pos_of Slast Ss).1 (pos_of Slast Ss).2 q ef prec max_iter))
+                    (Q2R q))) (Q2R prec).
+Proof.
+move=> Swf Lwf se Ewf Hef F ltRQ ltQR Hmono E1 E2 Hb1 H0 Hq Hi1 Hi2.
+rewrite (@source_quantile_is_search_on_cdf expm expm_sound ltRQ ltQR n Ss Slast alpha e Swf Lwf se Ewf q ef prec max_iter Hef).
+have [-> H] := @t_quantile_precision F Hmono q prec ef max_iter b1 i1 a2 b2 i2 E1 E2 Hb1 H0 Hq Hi1 Hi2.
+exact: H.
+Qed.
+Print Assumptions source_quantile_within_precision.
